@@ -33,6 +33,7 @@ type (
 		NewServer    func(eps any) any                           // <svc>server.New(eps, nil...)
 		Register     func(reg grpc.ServiceRegistrar, srv any)    // <svc>pb.Register<Svc>Server
 		SetConn      func(cc grpc.ClientConnInterface)           // <svc>pb.VerifConn = cc
+		link         *link
 		NewClient    func() any                                  // <svc>client.NewClient(nil)
 		MakeErr      map[string]func(error) *goa.ServiceError    // <svc>.Make<Name>
 		Methods      []string                                    // Go method names of the Service interface
@@ -45,7 +46,15 @@ type (
 		Method  string          `json:"method"` // Go method name
 		Payload json.RawMessage `json:"payload,omitempty"`
 		Outcome *Outcome        `json:"outcome,omitempty"`
+		// Raw, when set, is sent instead of calling the generated client: a request message (field data for the
+		// stand-in pb request type, unset fields simply missing) and metadata handed straight to the server side.
+		Raw *RawRequest `json:"raw,omitempty"`
 	}
+	RawRequest struct {
+		Msg      json.RawMessage     `json:"msg,omitempty"`
+		Metadata map[string][]string `json:"metadata,omitempty"`
+	}
+	rawArgs struct{ data any }
 	Outcome struct {
 		Kind    string          `json:"kind"` // result | error
 		Value   json.RawMessage `json:"value,omitempty"`
@@ -240,7 +249,10 @@ func (rt *link) Invoke(ctx context.Context, method string, args any, reply any, 
 		return status.Error(codes.Internal, "verif: no scenario in context")
 	}
 	md, _ := metadata.FromOutgoingContext(ctx)
-	st.add(Event{"ev": "client_encode", "fullMethod": method, "msgType": fmt.Sprintf("%T", args), "msg": Dump(args), "metadata": mdMap(md)})
+	raw, isRaw := args.(*rawArgs)
+	if !isRaw {
+		st.add(Event{"ev": "client_encode", "fullMethod": method, "msgType": fmt.Sprintf("%T", args), "msg": Dump(args), "metadata": mdMap(md)})
+	}
 	parts := strings.Split(strings.TrimPrefix(method, "/"), "/")
 	if len(parts) != 2 {
 		return status.Errorf(codes.Unimplemented, "malformed method name %q", method)
@@ -263,6 +275,14 @@ func (rt *link) Invoke(ctx context.Context, method string, args any, reply any, 
 	sctx = metadata.NewIncomingContext(sctx, md.Copy())
 	sctx = grpc.NewContextWithServerTransportStream(sctx, ts)
 	dec := func(v any) error {
+		if isRaw {
+			// a raw request: the handler's own (zero) request message is filled from the scenario data
+			if err := Fill(reflect.ValueOf(v).Elem(), raw.data); err != nil {
+				Fatal("scenario %s: cannot build raw request %T: %v", st.scn.ID, v, err)
+			}
+			st.add(Event{"ev": "client_encode", "raw": true, "fullMethod": method, "msgType": fmt.Sprintf("%T", v), "msg": Dump(v), "metadata": mdMap(md)})
+			return nil
+		}
 		src := reflect.ValueOf(args)
 		dst := reflect.ValueOf(v)
 		if src.Type() != dst.Type() || src.Kind() != reflect.Ptr {
@@ -306,6 +326,9 @@ func (rt *link) Invoke(ctx context.Context, method string, args any, reply any, 
 		return err
 	}
 	st.add(Event{"ev": "server_encode", "msgType": fmt.Sprintf("%T", resp), "msg": Dump(resp), "headers": mdMap(ts.header), "trailers": mdMap(ts.trailer), "sendHeaderCalls": ts.sent})
+	if reply == nil {
+		return nil
+	}
 	src, dst := reflect.ValueOf(resp), reflect.ValueOf(reply)
 	if src.IsValid() && src.Kind() == reflect.Ptr && !src.IsNil() {
 		if src.Type() != dst.Type() {
@@ -337,6 +360,7 @@ func (rt *Runtime) mount() {
 		eps := s.NewEndpoints(s.Stub)
 		srv := s.NewServer(eps)
 		l := &link{byName: map[string]*registered{}}
+		s.link = l
 		s.Register(l, srv)
 		s.SetConn(l)
 		rt.clients[n] = s.NewClient()
@@ -381,6 +405,19 @@ func (rt *Runtime) runOne(scn *Scenario) map[string]any {
 		s, ok := rt.services[scn.Service]
 		if !ok {
 			Fatal("scenario %s: unknown service %q", scn.ID, scn.Service)
+		}
+		if scn.Raw != nil {
+			var data any = map[string]any{}
+			if len(scn.Raw.Msg) > 0 && string(scn.Raw.Msg) != "null" {
+				data = decodeJSON(scn.Raw.Msg)
+			}
+			ctx := metadata.NewOutgoingContext(context.WithValue(context.Background(), scnKey, st), metadata.MD(scn.Raw.Metadata).Copy())
+			st.add(Event{"ev": "client_call", "method": scn.Method, "raw": true})
+			for name := range s.link.byName {
+				err := s.link.Invoke(ctx, "/"+name+"/"+scn.Method, &rawArgs{data}, nil)
+				st.add(Event{"ev": "client_return", "raw": true, "res": nil, "err": errInfo(err)})
+			}
+			return
 		}
 		m := reflect.ValueOf(rt.clients[scn.Service]).MethodByName(scn.Method)
 		if !m.IsValid() {
